@@ -141,6 +141,12 @@ def run_tree(case, ctx):
             return
         st, back = ctx.call(items_to_tree, items)
         ctx.check('flatten_rebuild_inverse', st == 'ok' and teq(back, mt) and back == t, lambda: 'items_to_tree(tree_items(t)) = %r != t = %r' % (back, mt))
+        if case.get('one_shot_items'):
+            # the items handed over as a one-shot iterable (an iterator / a generator), which the call has to consume exactly once
+            it = iter(list(items)) if case['one_shot_items'] == 'iter' else (i_ for i_ in list(items))
+            st, back = ctx.call(items_to_tree, it, raise_if_duplicate=False)
+            ctx.check('flatten_rebuild_inverse', st == 'ok' and teq(back, mt) and back == t, lambda: 'items_to_tree(<%s over tree_items(t)>, raise_if_duplicate = False) = %s %r != t = %r' % (case['one_shot_items'], st, back, mt))
+            ctx.cls('items_as_one_shot_iterable')
         st1, ks = ctx.call(tree_keys, t)
         st2, vs = ctx.call(tree_values, t)
         ctx.check('keys_values_align', st1 == st2 == 'ok' and list(ks) == [i[:-1] for i in exp_items] and len(vs) == len(exp_items) and all(same(a, b[-1]) for a, b in zip(vs, exp_items)),
@@ -295,6 +301,8 @@ def gen_case(rng):
             if last_wild:
                 r[segs[-1][1:]] = rng.choice([1, 2, 'v', 0.5, 'p', 0, '', None, 0.0, [100, -40], [], ['x']])
             rows.append(r)
+        if rng.random() < 0.12:
+            segs = [''] + segs          # a pattern written from the root, '/book/%ticker': its first literal key is the empty string
         return {'kind': 'table', 'pattern': '/'.join(segs), 'rows': rows, 'as_dictable': rng.random() < 0.5, 'as_row_dict': rng.random() < 0.5}
     root = rng.choice(['dict', 'dict', 'Dict', 'dictattr'])
     r_ = rng.random()
@@ -312,6 +320,8 @@ def gen_case(rng):
         case['u'] = gen_tree(rng, rng.randint(1, 4), rng.choice(['dict', 'dict', 'Dict', 'dictattr']), keys)
         if rng.random() < 0.35:
             case['ignore'] = rng.choice([[None], [None, 0], [0, ''], [None, 'x', 1], ['y'], [[]], [[1, 2]], [[], None]])       # a leaf may be a list, so may an ignored value
+    if rng.random() < 0.2:
+        case['one_shot_items'] = rng.choice(['iter', 'generator'])
     return case
 
 
